@@ -1,4 +1,4 @@
-// verif:properties C07
+// verif:properties C07 C16
 package uhppote
 
 // C07 - invalid arguments are rejected before anything is sent; a call is rejected only for the
@@ -413,3 +413,6 @@ func VerifC07_SetTimeProfile() {
 	_, err := u.SetTimeProfile(id, types.TimeProfile{ID: nondetU8("profile"), LinkedProfileID: nondetU8("linked"), From: from.date, To: to.date, Weekdays: weekdays, Segments: segments})
 	c07Check(d, err, id == 0 || from.zero || to.zero || bad, "SetTimeProfile")
 }
+
+// C16: the time-profile validation accepts a segment exactly when its end is not before its start
+func VerifC16_SetTimeProfileSegments() { VerifC07_SetTimeProfile() }
